@@ -62,7 +62,7 @@ impl C07 {
             let o = GenOpts {
                 max_blocks: 6,
                 max_instrs: 4,
-                widths: if wide { vec![1, 8, 24, 64, 128, 32] } else { vec![1, 8, 16, 32, 32, 64] },
+                widths: if wide { vec![1, 8, 24, 64, 128, 32, 16] } else { vec![1, 8, 16, 32, 32, 64, 128] },
                 all_reachable: true,
                 intrinsics: rng.chance(1, 3),
                 indirect_branches: true,
